@@ -84,6 +84,8 @@ def scenario(world: WorldT) -> None:
             model.emit_statp(changes)
             if not changes:
                 res.probe("empty_message")
+            if len(changes) >= 200:
+                res.probe("message_with_200_or_more_records")
             if len({p for p, _ in changes}) < len(changes):
                 res.probe("repeated_position_in_message")
         elif op["op"] == "set1":
